@@ -81,7 +81,7 @@ def gen_cases(tier, seed):
                           "path": ["fit", "partial_fit"][(i // 2 + stable_hash(seed, name, "p")) % 2],
                           "classes_none": bool((i // 4 + stable_hash(seed, name, "n")) % 2)})
     # multi-annotator strategies: the wrapper around classification strategies, and IntervalEstimationThreshold
-    inner = [n for n, e in POOL.items() if e.kind in ("clf", "both") and not e.is_wrapper and e.arbitrary_index_ok]
+    inner = [n for n, e in POOL.items() if e.kind in ("clf", "both") and not e.is_wrapper and e.arbitrary_index_ok and e.x_transform is None]
     for name in inner:
         for i in range(max(2, reps // (3 * POOL[name].slow))):
             cases.append({"family": "multi", "name": "saw", "entry": name, "seed": stable_hash(seed, "C09", "m", name, i),
